@@ -94,7 +94,14 @@ impl LayerContents {
             .ok_or(FontLoadError::MissingDefaultLayer)?;
         layers.rotate_left(default_idx);
 
-        Ok(LayerContents { layers, path_set: HashSet::new() })
+        // Record the directories in use, so that layers created later do not reuse one.
+        let path_set = layers
+            .iter()
+            .skip(1)
+            .map(|layer| layer.path.to_string_lossy().to_lowercase())
+            .collect();
+
+        Ok(LayerContents { layers, path_set })
     }
 
     /// Returns the number of layers in the set.
